@@ -79,6 +79,7 @@ func vReach(tag string)            { vrtReached[tag]++ }
 func vRegion(name string, c bool)  {}
 func vNote(s string)               {}
 func vIsSym(x any) bool            { return false }
+func vNative() bool                { return true }
 func vHang(what string)            { panic("VERIF: hang: " + what) }
 func vCrash()                      { panic(vrtCrashed{}) }
 func vCatchCrash(f func()) (crashed bool) {
